@@ -1,12 +1,14 @@
 (** * All source ties (Python -> Gallina translation of the current source, proved equal to the hand-written models).
     One file per property, so that a check depends only on the translation of its own anchored files:
-      Props/SrcTie_C13.v  range_merge.py, util/interval/*            (EXTRA_PROPS of harness/c13.py)
-      Props/SrcTie_C02.v  full_execution/result.py, exit_values.py   (EXTRA_PROPS of harness/c02.py)
-      Props/SrcTie_C16.v  the reporters' status sets                 (EXTRA_PROPS of harness/c16.py)
+      Props/SrcTie_C01.v  phase_step_executors._from_*, svh / sh / pfh
+      Props/SrcTie_C02.v  full_execution/result.py, exit_values.py
+      Props/SrcTie_C09.v  the symbol-reference delimiters
+      Props/SrcTie_C10.v  result_to_sh / result_to_pfh, AccumulatedComponents
+      Props/SrcTie_C12.v  path_relativity, relativity_validation, file-creation configuration
+      Props/SrcTie_C13.v  range_merge.py, transformers.py, util/interval/*
+      Props/SrcTie_C16.v  the reporters' status sets, the suite exit values
+      Props/SrcTie_C19.v  TIMEOUT__DEFAULT
+    (each is added to its check by `common.source_tie('Cnn')` in the gen_tables of harness/cnn.py).
     This file only collects them (compiling it checks all of them). *)
-From Exactly Require Export Props.SrcTie_C13 Props.SrcTie_C02 Props.SrcTie_C16.
-
-Check SrcTie_C13_merge.
-Check SrcTie_C13_union.
-Check SrcTie_C02_translate_status.
-Check SrcTie_C16_success_statuses.
+From Exactly Require Export Props.SrcTie_C01 Props.SrcTie_C02 Props.SrcTie_C10 Props.SrcTie_C12 Props.SrcTie_C13
+  Props.SrcTie_C16 Props.SrcTie_C19 Props.SrcTie_C09.
